@@ -74,7 +74,9 @@ TStoreStep == \E w \in DOMAIN wr :
 TStoreRet == /\ IsEvent("StoreRet") /\ StoreAck(Ev.w) /\ last'[Ev.w] = Ev.res
              /\ known' = IF Ev.res = "ok" THEN known \cup {e.k : e \in cset[Ev.w]} ELSE known
              /\ UNCHANGED <<expd, cset>>
-TCancel == IsEvent("Cancel") /\ Quiet /\ ~AnyWr /\ Cancel(Ev.r) /\ UK
+\* the cancelled reader itself may be one that was about to return (a context cancelled before / while Await runs for a stored
+\* key: the call then returns the value or the context error); every OTHER reader that must return has returned before
+TCancel == IsEvent("Cancel") /\ (\A r \in DOMAIN rd \ {Ev.r} : ~MustRet(r)) /\ ~AnyWr /\ Cancel(Ev.r) /\ UK
 TExpire == /\ IsEvent("Expire") /\ Quiet /\ ~AnyWr /\ Expire(Ev.d)
            /\ known' = {k \in known : k.d # Ev.d} /\ expd' = expd \cup {Ev.d} /\ UNCHANGED cset
 TraceNext == TReset \/ TAwaitCall \/ TQuery \/ TAwaitReturn \/ TStoreCall \/ TStoreStep \/ TStoreRet
